@@ -21,7 +21,7 @@ bad = []
 def body(case):
     stats['cases'] += 1
     try:
-        orig = harness.run_original(case, driver=make_driver(case))
+        orig = harness.run_original(case, driver=make_driver(case, **(case.get('driver') or {})))
     except harness.GeneratorBug as e:
         stats['gen_bug'] += 1
         bad.append(('genbug', str(e)[:400], case))
